@@ -62,6 +62,9 @@ type Config struct {
 	// TrustSiblings: for every issuing CA a certificate with the SAME name and another key (the CA after a re-key)
 	// is configured as trusted signature cert: lists of kind "badsig" (signed with that key) are then authentic
 	TrustSiblings bool `json:"trust_siblings,omitempty"`
+	// ExpiredSigners: the certificates of the issuing CAs (as handed over in chains and as configured trusted signers) are
+	// past their notAfter: certificate validity is the TLS stack's business, the signature policy does not depend on it
+	ExpiredSigners bool `json:"expired_signers,omitempty"`
 	// T61Names: the issuing CAs' names are TeletexStrings that differ in one Latin-1 character only
 	T61Names bool `json:"t61_names,omitempty"`
 }
@@ -582,7 +585,11 @@ func Run(spec Spec, x *ev.Ctx, obs Observer) (*Result, error) {
 		if spec.Config.T61Names {
 			nameBase = "t61:" + w.base
 		}
+		if spec.Config.ExpiredSigners {
+			nameBase = "expired:" + nameBase
+		}
 		w.cas = append(w.cas, pkiWithName(nameBase, i, keys[i]))
+		nameBase = strings.TrimPrefix(nameBase, "expired:")
 		w.sibling = append(w.sibling, pkiWithName(nameBase, i, sib[i]))
 	}
 	w.other = world.NewSimplePKI(w.base+" unrelated", "rsa2048c", "")
@@ -769,12 +776,14 @@ func Run(spec Spec, x *ev.Ctx, obs Observer) (*Result, error) {
 }
 
 func pkiWithName(base string, i int, keys [2]string) *world.SimplePKI {
+	expired := strings.HasPrefix(base, "expired:")
+	base = strings.TrimPrefix(base, "expired:")
 	p := &world.SimplePKI{}
 	p.Root = gen.Issue(gen.CertSpec{Key: keys[0], Subject: gen.NameSpec{{{T: "O", V: "verif"}}, {{T: "CN", V: fmt.Sprintf("%s root %d", strings.TrimPrefix(base, "t61:"), i)}}}, SerialHex: "01", IsCA: true}, nil)
 	if keys[1] != "" {
-		p.Inter = gen.Issue(gen.CertSpec{Key: keys[1], Subject: issuerName(base, i), SerialHex: "02", IsCA: true}, p.Root)
+		p.Inter = gen.Issue(gen.CertSpec{Key: keys[1], Subject: issuerName(base, i), SerialHex: "02", IsCA: true, Expired: expired}, p.Root)
 	} else {
-		p.Root = gen.Issue(gen.CertSpec{Key: keys[0], Subject: issuerName(base, i), SerialHex: "01", IsCA: true}, nil)
+		p.Root = gen.Issue(gen.CertSpec{Key: keys[0], Subject: issuerName(base, i), SerialHex: "01", IsCA: true, Expired: expired}, nil)
 	}
 	return p
 }
